@@ -11,7 +11,7 @@ CLAIMED = {
  "C02": ("stateful model-based property testing: generated API-call histories with an invariant checked after every step; exhaustive single steps for n<=3; libFuzzer history target (thorough)",
          "Histories of public API calls over a pool of tables are interpreted on the library; after every step the written slot must be well formed (block count, no bit >= 2^n) and ==, !=, cmp, partial_cmp, Hash must agree with equality of the functions read through value(), against every slot and a from_blocks twin; HashSet/BTreeSet sizes at the end. Exploration over histories (inductive step + long sequences).",
          "Trusts value() as the functional view; what operations compute is judged by other properties.", "DESIGN.md §4 C02"),
- "C03": ("property-based testing against the definition (bit-exchange / cofactor definitions evaluated per assignment) + exhaustive n<=3/4; all index regimes; libFuzzer target transforms (thorough)",
+ "C03": ("property-based testing against the definition (bit-exchange / cofactor definitions evaluated per assignment) + exhaustive n<=3/4; all index regimes; top-variable pairs on 15..20-variable tables; libFuzzer target transforms (thorough)",
          "flip, swap, swap_adjacent (copying/in-place, both argument orders), cofactors, from_cofactors of arbitrary c0/c1 and recomposition are compared with the definition on every assignment for generated dense tables with regime-balanced index pairs and exhaustively for n<=3/4.",
          "Trusts value()/from_blocks(); stray bits not inspected (C02).", "DESIGN.md §4 C03"),
  "C04": ("property-based testing against an independent group-enumeration oracle (next-permutation x polarity counter), exhaustive n<=3/4, hook-based exhaustive walk validation n<=8, metamorphic orbit invariance; libFuzzer target canon (thorough)",
@@ -29,7 +29,7 @@ CLAIMED = {
  "C08": ("property-based testing against big-integer comparison (opposed-pair generator), complete iterator runs n<=3/4, hook-based successor/iterator checks from generated tables incl. word carries; std iterator adaptors (nth/skip/step_by/count/last/fold/for_each/collect/filter/max/by_ref, also beyond the end) against repeated next()",
          "cmp/partial_cmp/relations/==/sort/hex-string order versus the harness's numeric comparison on generated tuples (also different n) and all pairs n<=2/3; full all_functions runs; through the hooks, successor steps and iterator tails from arbitrary tables (low words all ones, near the top) versus model +1.",
          "The carry path uses the cfg-guarded hooks (public path needs 2^64 steps).", "DESIGN.md §4 C08"),
- "C09": ("property-based testing: formatter oracle + grammar/corruption-based string generator against an explicit accept-set oracle; formatting traits under non-default format specifications; exhaustive small alphabets; libFuzzer hex target (thorough)",
+ "C09": ("property-based testing: formatter oracle + grammar/corruption-based string generator against an explicit accept-set oracle; formatting traits under non-default format specifications; the library's own wrapped prints and other wrappings offered to the parser; exhaustive small alphabets; libFuzzer hex target (thorough)",
          "All five text forms versus a definition-level formatter; from_hex_string on printed tables with structured corruptions (signs, non-hex, upper case, multi-byte UTF-8, length +-1/2, chunk-boundary positions) versus the accept set `exactly width hex digits fitting 2^n bits`; exhaustive over a 20-symbol alphabet up to width+1 for n<=3/4.",
          "Upper-case digits may be accepted or rejected.", "DESIGN.md §4 C09"),
  "C10": ("differential property-based testing: the same generated API history interpreted on Lut and on LutN, outcomes compared step by step; conversion round trips; canonization certificates at N = 8..12; a fixed-size type beyond the aliases (StaticLut<13,128>); exhaustive u8/u16 integer conversions; libFuzzer differential history target (thorough)",
@@ -44,7 +44,7 @@ CLAIMED = {
  "C13": ("property-based testing against parity / OR-of-parities models; exhaustive ecube pairs n<=4/5 and Soes term lists; Soes over 9..32 variables compared pointwise (soes-wide); aliased operands",
          "Ecube value/xor/not/equality/enumeration and Soes value/or/Lut conversion/is_zero/is_one against the definitions, generated up to 32 variables (ecube) / n=8 (soes), exhaustive small domains.",
          "Variables < 32.", "DESIGN.md §4 C13"),
- "C14": ("property-based testing over generated expression trees with designed-redundancy cube lists; every intermediate result checked semantically and structurally; exhaustive n<=2 subsets / n=3 lists; expressions over 11..32 variables compared pointwise and on literal sets (wide); aliased operands; libFuzzer expression target (thorough)",
+ "C14": ("property-based testing over generated expression trees with designed-redundancy cube lists; every intermediate result checked semantically and structurally; exhaustive n<=2 subsets / n=3 lists; covers of more than 2^16 cubes (manycubes); expressions over 11..32 variables compared pointwise and on literal sets (wide); aliased operands; libFuzzer expression target (thorough)",
          "Every &, |, ! result inside generated expressions denotes the operation on the operand functions (value, Lut, cubes) and contains no contradictory, duplicate or absorbed cube; is_zero exact, is_one sound; Lut<->Sop minterm cover round trip.",
          "! and & bounded by operand size (exponential), not by time.", "DESIGN.md §4 C14"),
  "C15": ("property-based testing against definition-level ANF coefficients; exhaustive all functions n<=3/4; operator checks on generated mixed-polarity cube lists, also over 11..32 variables (wide); aliased operands",
